@@ -2881,6 +2881,41 @@ func (p *Posix) PutObject(ctx context.Context, po s3response.PutObjectInput) (s3
 	if po.ContentLength != nil {
 		contentLength = *po.ContentLength
 	}
+
+	hash := md5.New()
+	rdr := io.TeeReader(po.Body, hash)
+
+	hashConfigs := []hashConfig{
+		{po.ChecksumCRC32, utils.HashTypeCRC32},
+		{po.ChecksumCRC32C, utils.HashTypeCRC32C},
+		{po.ChecksumSHA1, utils.HashTypeSha1},
+		{po.ChecksumSHA256, utils.HashTypeSha256},
+		{po.ChecksumCRC64NVME, utils.HashTypeCRC64NVME},
+	}
+	var hashRdr *utils.HashReader
+
+	for _, config := range hashConfigs {
+		if config.value != nil {
+			hashRdr, err = utils.NewHashReader(rdr, *config.value, config.hashType)
+			if err != nil {
+				return s3response.PutObjectOutput{}, fmt.Errorf("initialize hash reader: %w", err)
+			}
+
+			rdr = hashRdr
+		}
+	}
+
+	// If only the checksum algorithm is provided register
+	// a new HashReader to calculate the object checksum
+	if hashRdr == nil && po.ChecksumAlgorithm != "" {
+		hashRdr, err = utils.NewHashReader(rdr, "", utils.HashType(strings.ToLower(string(po.ChecksumAlgorithm))))
+		if err != nil {
+			return s3response.PutObjectOutput{}, fmt.Errorf("initialize hash reader: %w", err)
+		}
+
+		rdr = hashRdr
+	}
+
 	if strings.HasSuffix(*po.Key, "/") {
 		// object is directory
 		if contentLength != 0 {
@@ -2888,6 +2923,17 @@ func (p *Posix) PutObject(ctx context.Context, po s3response.PutObjectInput) (s3
 			// if reuests has a data payload associated with a
 			// directory object
 			return s3response.PutObjectOutput{}, s3err.GetAPIError(s3err.ErrDirectoryObjectContainsData)
+		}
+
+		// the empty payload still has to pass every integrity check the
+		// request carries (Content-MD5, x-amz-content-sha256,
+		// x-amz-checksum-*, chunk signatures): they are evaluated by the
+		// readers around the body once it has been read to its end
+		if po.Body != nil {
+			_, err := io.Copy(io.Discard, rdr)
+			if err != nil {
+				return s3response.PutObjectOutput{}, err
+			}
 		}
 
 		err = backend.MkdirAll(name, uid, gid, doChown, p.newDirPerm)
@@ -2958,40 +3004,6 @@ func (p *Posix) PutObject(ctx context.Context, po s3response.PutObjectInput) (s3
 		return s3response.PutObjectOutput{}, fmt.Errorf("open temp file: %w", err)
 	}
 	defer f.cleanup()
-
-	hash := md5.New()
-	rdr := io.TeeReader(po.Body, hash)
-
-	hashConfigs := []hashConfig{
-		{po.ChecksumCRC32, utils.HashTypeCRC32},
-		{po.ChecksumCRC32C, utils.HashTypeCRC32C},
-		{po.ChecksumSHA1, utils.HashTypeSha1},
-		{po.ChecksumSHA256, utils.HashTypeSha256},
-		{po.ChecksumCRC64NVME, utils.HashTypeCRC64NVME},
-	}
-	var hashRdr *utils.HashReader
-
-	for _, config := range hashConfigs {
-		if config.value != nil {
-			hashRdr, err = utils.NewHashReader(rdr, *config.value, config.hashType)
-			if err != nil {
-				return s3response.PutObjectOutput{}, fmt.Errorf("initialize hash reader: %w", err)
-			}
-
-			rdr = hashRdr
-		}
-	}
-
-	// If only the checksum algorithm is provided register
-	// a new HashReader to calculate the object checksum
-	if hashRdr == nil && po.ChecksumAlgorithm != "" {
-		hashRdr, err = utils.NewHashReader(rdr, "", utils.HashType(strings.ToLower(string(po.ChecksumAlgorithm))))
-		if err != nil {
-			return s3response.PutObjectOutput{}, fmt.Errorf("initialize hash reader: %w", err)
-		}
-
-		rdr = hashRdr
-	}
 
 	_, err = io.Copy(f, rdr)
 	if err != nil {
